@@ -76,7 +76,9 @@ def scenario(kind):
     def reader(name):
       for _ in range(2):
         try:
-          m = ad.read_message(timeouts.PolledTimeout(None))
+          # 'readers_timeout': the second reader brings a finite timeout (nothing in a correct adapter waits on a
+          # clock while the transport answers at once, so virtual time never reaches it)
+          m = ad.read_message(timeouts.PolledTimeout(0.2 if kind == 'readers_timeout' and name == 'r2' else None))
           got[name].append((m.command, m.arg0, m.arg1, m.data))
         except Exception as e:  # pylint: disable=broad-except
           got[name].append(('ERR', type(e).__name__, str(e)[:60]))
@@ -140,15 +142,15 @@ def check(kind):
     else:
       allgot = v['got']['r1'] + v['got']['r2']
       if any(g[0] == 'ERR' for g in allgot):
-        out.append(('schedules:readers:error', 'a reader got an error although all frames are valid: %r' % (v['got'],), rep))
+        out.append(('schedules:%s:error' % kind, 'a reader got an error although all frames are valid: %r' % (v['got'],), rep))
       elif sorted(allgot) != sorted(R_FRAMES):
-        out.append(('schedules:readers:content', 'readers got %r, device sent %r' % (v['got'], R_FRAMES), rep))
+        out.append(('schedules:%s:content' % kind, 'readers got %r, device sent %r' % (v['got'], R_FRAMES), rep))
     return out
   return chk
 
 
 def run_into(rep, tier):
-  for kind in ('writers', 'readers'):
+  for kind in ('writers', 'readers', 'readers_timeout'):
     bound = 2 if tier == 'quick' else 4
     r = explore.explore('C13:' + kind, lambda ch, kind=kind: execute(kind, ch), check(kind), bound, cap=400000)
     rep.merge_violations(r['violations'])
